@@ -18,7 +18,7 @@ func init() {
 	core.Register(&core.Prop{
 		ID:    "C17",
 		Level: "exploration",
-		Rule: "EXHAUSTIVE pairs over the numeric universe N = {-12..12} + {+-2^31, +-(2^53-1), +-2^53} + {k/4 : -48<=k<=48} + numeric strings {\"7\",\"-3\",\"2.50\",\"0\"} + {nil, \"x\", \"\", \"1e\"} (about 150 values, 22k ordered pairs) x the nine numeric filters, operands bound as variables in PRNG-chosen integer/float widths and spelled as literals; expected values from exact rational arithmetic (math/big). Plus PRNG chains of 2..5 numeric filters evaluated stepwise exactly, and the identities a+b-b=a, (a*b)/b=a. Non-trivial = both operands numeric and not both zero; distinct = distinct (filter, operands).",
+		Rule: "EXHAUSTIVE pairs over the numeric universe N = {-12..12} + {+-2^31, +-(2^53-1), +-2^53} + {k/4 : -48<=k<=48} + numeric strings {\"7\",\"-3\",\"2.50\",\"0\"} + {nil, \"x\", \"\", \"1e\"} (about 150 values, 22k ordered pairs) x the nine numeric filters, operands bound as variables in PRNG-chosen integer/float widths and spelled as literals; expected values from exact rational arithmetic (math/big). Plus PRNG chains of 2..5 numeric filters evaluated stepwise exactly, and the identities a+b-b=a, (a*b)/b=a; float32 operands that are not short decimals (1/3, 0.1, 2^53, 3.4e38, ...) through operations whose exact result is a float64. Non-trivial = both operands numeric and not both zero; distinct = distinct (filter, operands).",
 		Exhaustive: func(string) bool { return true },
 		Assumptions: []string{
 			"divided_by with an integer divisor: any integer q with |a/b - q| < 1 is accepted (truncation and floor are both 'integer division'); modulo: any r with |r| < |b| and (a-r)/b integral",
@@ -223,6 +223,43 @@ func runC17(c *core.Ctx) {
 		}
 	}
 	c17Chains(c, e)
+	c17Float32(c, e)
+}
+
+// c17Float32: a float32 operand enters the arithmetic with exactly its own value (every float32 is exactly
+// representable as a float64), not with the value of its shortest decimal spelling. Only operations whose exact
+// result is again a float64 are used, so the expected output is determined exactly.
+func c17Float32(c *core.Ctx, e *liquid.Engine) {
+	if c.Shard != 3%c.NShards || !c.Begin("float32 exactness family") {
+		return
+	}
+	vals := []float32{float32(1) / 3, 0.1, float32(2) / 3, 0.7, 16777216, float32(1 << 53), 1e10, -float32(1) / 3, 3.4e38, 1.1754944e-38, 33554434, 0.2, 100.3}
+	for _, f := range vals {
+		x := float64(f)
+		exact := new(big.Rat).SetFloat64(x)
+		type cse struct {
+			src  string
+			want *big.Rat
+		}
+		two, zero := big.NewRat(2, 1), new(big.Rat)
+		cases := []cse{
+			{"{{ f | times: 1 }}", exact}, {"{{ f | plus: 0 }}", exact}, {"{{ f | times: 2 }}", new(big.Rat).Mul(exact, two)}, {"{{ f | minus: d }}", zero}, {"{{ d | minus: f }}", zero},
+			{"{{ f | abs }}", new(big.Rat).Abs(exact)}, {"{{ 0 | plus: f }}", exact}, {"{{ 1 | times: f }}", exact}, {"{{ 1.0 | times: f }}", exact}, {"{{ f | divided_by: 1.0 }}", exact}, {"{{ f | times: 1 | minus: d }}", zero},
+		}
+		for _, cs := range cases {
+			res := core.Run(e, cs.src, map[string]any{"f": f, "d": x})
+			c.Eval(1)
+			c.Obs("float32_exactness_cases", 1)
+			c.Distinct("f32", cs.src, fmt.Sprint(f))
+			// the output is the shortest decimal that identifies the float64 result: compare as float64
+			got, perr := strconv.ParseFloat(res.Out, 64)
+			want, _ := cs.want.Float64()
+			if !res.OK() || perr != nil || got != want {
+				c.Violate("float32-operand|"+strings.Fields(cs.src)[3], "a float32 operand must enter the arithmetic with exactly its numeric value (operands and result are exactly representable as 64-bit floats)",
+					map[string]any{"source": cs.src, "f": fmt.Sprintf("float32(%v) = %v exactly", f, x), "d": x, "expected": cs.want.FloatString(20), "observed": res.Brief()})
+			}
+		}
+	}
 }
 
 // c17Judge applies the C17 oracle to one filter application.
